@@ -10,6 +10,7 @@ from .C17 import find_committer, find_appenders, d2_data_owners, d2_commit_count
 from .C09 import d3_checker, d2_accumulator, d4_iterable, product_atoms, expand_props, recover
 from .C20 import fold
 from ._shared import raised_names
+from . import _trunc
 
 EXPLANATION = (
     "(D1) append casts to the array's dtype and checks the whole trailing shape before writing (the "
@@ -107,67 +108,43 @@ def d4_truncate(ctx, committer):
     if not resizes:
         raise AnalysisError('truncate_array: resize vanished')
     r = resizes[0]
-    # int gate
-    gates = [n for n in own_nodes(f.node) if isinstance(n, ast.If) and always_raises(n.body)
-             and norm(n.test) in ('not isinstance(index, int)',) and 'TypeError' in raised_names(n.body)]
-    ctx.decide(bool(gates) and must_precede(f, r.node, gates), 'R-DOM', 'D4', f, r.node, 'int-gate',
-               'truncate_array: `not isinstance(index, int)` raises TypeError before the data file is resized',
+    obj, index = f.params[0], f.params[1]
+    # int gate (path-condition evaluation: polarity- and layout-independent)
+    ctx.decide(_trunc.int_gate(f, [r.node], index), 'R-DOM', 'D4', f, r.node, 'int-gate',
+               f'truncate_array: a non-int `{index}` raises TypeError and never reaches the resize of the data file',
                detail='a non-int index can reach os.truncate')
-    # newlen = len(map[:index])
-    nl = [v for v, _ in defs_of(f.node, 'newlen')]
-    ok = len(nl) == 1 and isinstance(nl[0], ast.Call) and dotted(nl[0].func) == 'len' and \
-        isinstance(nl[0].args[0], ast.Subscript) and isinstance(nl[0].args[0].slice, ast.Slice) and \
-        nl[0].args[0].slice.lower is None and norm(nl[0].args[0].slice.upper) == 'index' and \
-        nl[0].args[0].slice.step is None and not defs_of(f.node, 'index')
-    ctx.decide(ok, 'R-FLOW', 'D4', f, nl[0] if nl else None, 'newlen-by-numpy-slicing',
-               'truncate_array: the new length is len(map[:index]) with `index` forwarded verbatim (NumPy slicing semantics)',
+    # newlen = len(map[:index])  (variable found by role)
+    nls = _trunc.find_newlen(f, index)
+    ctx.decide(len(nls) == 1, 'R-FLOW', 'D4', f, nls[0][1] if nls else None, 'newlen-by-numpy-slicing',
+               f'truncate_array: the new length is len(map[:{index}]) with `{index}` forwarded verbatim (NumPy slicing semantics)',
                detail='new length is not computed by NumPy slicing of the verbatim index')
-    # guard over weak orderings of (0, newlen, L)
-    guard = None
-    for p, fld in enclosing(f.node, r.node):
-        if isinstance(p, ast.If):
-            guard = (p, fld)
-            break
-    if guard is None:
-        ctx.bad('R-DOM', 'D4', f, r.node, 'shrink-guard', 'truncate_array resizes only when 0 <= newlen < len', detail='resize unguarded')
+    newlen = nls[0][0] if len(nls) == 1 else None
+    if newlen is None:
+        return
+    rows = _trunc.shrink_rows(f, r.node, newlen, obj, index)
+    wrong, unknown = _trunc.judge(rows)
+    inst = f'truncate_array: the resize runs exactly when 0 <= {newlen} < len({obj}) (path conditions folded on {len(rows)} order types)'
+    if unknown:
+        ctx.assume('R-TABLE', 'D4', f, r.node, 'shrink-guard', inst, detail='a test deciding the resize is not a pure comparison of the new length and len')
     else:
-        g, fld = guard
-        wrong, unknown = [], False
-        total = 0
-        for o in weak_orderings(['zero', 'newlen', 'L']):
-            env = {'newlen': o['newlen'] - o['zero'], 'len(a)': o['L'] - o['zero'], 'a.shape[0]': o['L'] - o['zero']}
-            if env['len(a)'] < 0:
-                continue
-            total += 1
-            try:
-                v = bool(fold(g.test, env))
-            except Exception:
-                unknown = True
-                continue
-            runs = v if fld == 'body' else (not v)
-            spec = 0 <= env['newlen'] < env['len(a)']
-            if runs != spec:
-                wrong.append(f"newlen={env['newlen']}, len={env['len(a)']}: resizes={runs}, spec={spec}")
-        inst = f'truncate_array: the resize runs exactly when 0 <= newlen < len(a) (guard `{norm(g.test)}` on {total} order types)'
-        if unknown:
-            ctx.assume('R-TABLE', 'D4', f, g, 'shrink-guard', inst, detail='guard is not a pure comparison of newlen and len(a)')
-        else:
-            ctx.decide(not wrong, 'R-TABLE', 'D4', f, g, 'shrink-guard', inst, detail='; '.join(wrong[:3]), witness=wrong)
-        other = g.orelse if fld == 'body' else g.body
-        ctx.decide(always_raises(other) and 'IndexError' in raised_names(other), 'R-DOM', 'D4', f, g, 'else-raises-indexerror',
-                   'truncate_array: an index that does not shorten the array raises IndexError', detail='no IndexError branch')
+        ctx.decide(not wrong, 'R-TABLE', 'D4', f, r.node, 'shrink-guard', inst, detail='; '.join(wrong[:3]), witness=wrong)
+    badrej = _trunc.rejects_with(rows, 'IndexError')
+    ctx.decide(not badrej, 'R-DOM', 'D4', f, r.node, 'else-raises-indexerror',
+               'truncate_array: an index that does not shorten the array raises IndexError', detail='; '.join(badrej[:2]) or 'no IndexError branch')
     # byte count monomial
     arg = r.node.args[1] if len(r.node.args) > 1 else None
     if isinstance(arg, ast.Name):
         ds = [v for v, _ in defs_of(f.node, arg.id)]
         arg = ds[0] if len(ds) == 1 else arg
     atoms = product_atoms(arg) if arg is not None else None
-    want = [('a.dtype.itemsize', 'newlen', 'product(a.shape[1:])'), ('a.itemsize', 'newlen', 'product(a.shape[1:])')]
+    want = [tuple(sorted((f'{obj}.dtype.itemsize', newlen, f'product({obj}.shape[1:])'))),
+            tuple(sorted((f'{obj}.itemsize', newlen, f'product({obj}.shape[1:])'))),
+            tuple(sorted((f'{obj}._dtype.itemsize', newlen, f'product({obj}._shape[1:])')))]
     if atoms is None:
         ctx.assume('R-FLOW', 'D4', f, r.node, 'byte-count', 'truncate_array: byte count = newlen x product(shape[1:]) x itemsize',
                    detail='not a pure product')
     else:
-        ctx.decide(tuple(atoms) in want, 'R-FLOW', 'D4', f, r.node, 'byte-count',
+        ctx.decide(tuple(sorted(atoms)) in want, 'R-FLOW', 'D4', f, r.node, 'byte-count',
                    'truncate_array: byte count = newlen x product(shape[1:]) x itemsize',
                    detail=f'file is cut to `{" * ".join(atoms)}` bytes')
     # path is the data path of the same handle
@@ -181,8 +158,8 @@ def d4_truncate(ctx, committer):
             if isinstance(a, ast.Name):
                 ds = [v for v, _ in defs_of(f.node, a.id)]
                 a = ds[0] if len(ds) == 1 else a
-            ok = isinstance(a, ast.BinOp) and isinstance(a.op, ast.Sub) and norm(a.left) == 'newlen' and \
-                norm(a.right) in ('len(a)', 'a.shape[0]')
+            ok = isinstance(a, ast.BinOp) and isinstance(a.op, ast.Sub) and norm(a.left) == newlen and \
+                norm(a.right) in (f'len({obj})', f'{obj}.shape[0]')
             ctx.decide(ok, 'R-FLOW', 'D4', f, node, 'commit-delta', 'truncate_array commits newlen - len(a)',
                        detail=f'committed delta is {norm(a)}')
             ctx.decide(must_precede(f, node, [r.node]), 'R-ORDER', 'D4', f, node, 'resize-before-commit',
